@@ -405,6 +405,48 @@ static std::string op_bulk(const toks_t& t)
     else if (t[2] == "int") out = counted_ops<int>(t);
     else if (t[2] == "long") out = counted_ops<long>(t);
     else if (t[2] == "llong") out = counted_ops<long long>(t);
+#ifdef PTR_GRANT
+  } else if (op.rfind("ggrant", 0) == 0) {
+    // ggrant <src> <num> <back end succeeds 0/1> <address it answers with> <malloc-ret-rep>   (back end with grant/deny)
+    uintptr_t src = parse_u64(t[1]);
+    size_t num = parse_u64(t[2]);
+    auto impl = sbA.get_sandbox_impl();
+    impl->grant_succeeds = t[3] == "1"; impl->grant_answer = parse_u64(t[4]); impl->grant_calls = 0;
+    impl->malloc_override = true;
+    impl->malloc_override_val = static_cast<typename Cfg::rep_t>(parse_u64(t[5]));
+    fill_windows(0x11);
+    std::memset(reinterpret_cast<void*>(APP_BASE), 0x77, 4096);
+    bool copied = false;
+    std::string res;
+    try {
+      auto r = rlbox::copy_memory_or_grant_access(sbA, reinterpret_cast<char*>(src), num, false, copied);
+      res = "OK " + addr_s((const void*)r.UNSAFE_unverified()) + (copied ? " copied" : "");
+    } catch (const std::runtime_error& e) {
+      if (std::strncmp(e.what(), "HARNESS", 7) == 0) throw;
+      res = "ABORT";
+    }
+    impl->malloc_override = false;
+    out = res + " asked=" + std::to_string(impl->grant_calls) + (impl->grant_calls ? ":" + std::to_string(impl->last_transfer_start) + ":" + std::to_string(impl->last_transfer_num) : "");
+  } else if (op.rfind("gdeny", 0) == 0) {
+    // gdeny <src> <num> <back end succeeds 0/1> <address it answers with>     (char buffers)
+    uintptr_t src = parse_u64(t[1]);
+    size_t num = parse_u64(t[2]);
+    auto& sbx = sb(src ? src : slot_base(0));
+    auto impl = sbx.get_sandbox_impl();
+    impl->grant_succeeds = t[3] == "1"; impl->grant_answer = parse_u64(t[4]); impl->deny_calls = 0;
+    bool copied = false;
+    std::string res;
+    try {
+      auto ps = mkptr<char>(src);
+      char* r = rlbox::copy_memory_or_deny_access(sbx, ps, num, false, copied);
+      res = copied ? std::string("OK copy copied") : "OK " + std::to_string(reinterpret_cast<uintptr_t>(r));
+      if (copied) free(r);
+    } catch (const std::runtime_error& e) {
+      if (std::strncmp(e.what(), "HARNESS", 7) == 0) throw;
+      res = "ABORT";
+    }
+    out = res + " asked=" + std::to_string(impl->deny_calls) + (impl->deny_calls ? ":" + std::to_string(impl->last_transfer_start) + ":" + std::to_string(impl->last_transfer_num) : "");
+#endif
   } else if (op.rfind("deny", 0) == 0) {
     // deny <src> <elk> <num>   (element kinds allowed by can_type_be_memcopied)
     uintptr_t src = parse_u64(t[1]);
